@@ -10,8 +10,8 @@ FUNCTIONS = [
     "batchie.scoring.gaussian_dbal.dbal_fast_gauss_scoring_vectorized (triple selection part)",
 ]
 BOUNDS = {
-    "quick": "loop-invariant lemmas: n and index unbounded, k=1..4; enumeration: every n<=10, k<=4 (and k=0, k>n): index symbolic over [0,C(n,k)); scoring use: n_thetas<=5 with every draw of rng.choice, and n_thetas 12/30/150 (default budget) with an adversarial generator",
-    "thorough": "every n<=18, k<=4; scoring use: n_thetas<=5",
+    "quick": "loop-invariant lemmas: n and index unbounded, k=1..4; enumeration: every n<=10, k<=4 (and k=0, k>n) and n=66, k=2: index symbolic over [0,C(n,k)); scoring use: n_thetas<=5 with every draw of rng.choice, and n_thetas 12/30/150 (default budget) with an adversarial generator",
+    "thorough": "every n<=26 with k<=4, n<=40 with k=3, n<=80 with k<=2; scoring use: n_thetas<=5 with every draw, adversarial generator up to n_thetas=600; lemmas as in quick",
 }
 ASSUMPTIONS = [
     "rng.choice(N, size, replace=False) returns an arbitrary sequence of distinct elements of range(N) (numpy's contract; every such sequence is explored)",
@@ -24,13 +24,21 @@ TASK_QUOTA = 200
 
 
 def configs(tier, seed):
-    N = 10 if tier == "quick" else 18
+    N = 10 if tier == "quick" else 26
     out = []
     for n in range(0, N + 1):
         for k in range(0, 5):
             if math.comb(n, k) == 0:
                 continue
             out.append(dict(name="unrank n=%d k=%d" % (n, k), h="unrank", n=n, k=k))
+    if tier != "quick":
+        for n in range(N + 1, 41):
+            out.append(dict(name="unrank n=%d k=3" % n, h="unrank", n=n, k=3))
+        for n in list(range(N + 1, 81)):
+            for k in (1, 2):
+                out.append(dict(name="unrank n=%d k=%d" % (n, k), h="unrank", n=n, k=k))
+    else:
+        out.append(dict(name="unrank n=66 k=2", h="unrank", n=66, k=2))
     for nt, mc in ((3, 5), (4, 2), (4, 10), (5, 2)) + (((5, 3),) if tier != "quick" else ()):
         out.append(dict(name="triples nt=%d max=%d" % (nt, mc), h="triples", nt=nt, max_combos=mc))
     # sparse regimes (triple space far larger than the budget, production sizes included) with an adversarial generator:
